@@ -163,12 +163,16 @@ class Eval(object):
             raise AnalysisBroken("enum PDU::PDUType not in the database")
         return sorted(set(x["v"] for x in en["enumerators"]))
 
-    def eval_flag(self, f, v, K, depth):
+    def eval_member(self, f, vals, K, depth):
+        return self.eval_flag(f, vals[0], K, depth, extra=dict((p_["var"], v_) for p_, v_ in zip(f["params"][1:], vals[1:])))
+
+    def eval_flag(self, f, v, K, depth, extra=None):
         from vlib import ieval
         if depth > 8:
             raise AnalysisBroken("matches_flag recursion too deep at %s" % facts.loc(f))
         pvar = f["params"][0]["var"]
         env = {pvar: v}
+        env.update(extra or {})
 
         def tf(n):
             if n["k"] != "CXXMemberCallExpr":
@@ -194,6 +198,17 @@ class Eval(object):
                     if len(pt) == 1:
                         return list(pt)[0]
                 raise ieval.Unknown("pdu_type() with several possible values")
+            # a const member of the same object that takes constants / the flag (shared logic pulled up into a base class:
+            # `matches_own_or_control_flag(pdu_flag, flag)`): its body is evaluated on the argument values, same object
+            me_ = strip(n["c"][0]) if n.get("c") else None
+            obj_ = strip(me_["c"][0]) if me_ is not None and me_.get("c") else None
+            h_ = self.db.fn(n.get("callee")) if n.get("callee") else None
+            if h_ is not None and h_.get("body") and len(n["c"]) >= 2 and (obj_ is None or obj_["k"] == "CXXThisExpr") and \
+                    len(h_.get("params", ())) == len(n["c"]) - 1 and \
+                    all((facts.tyi(h_, p_.get("t")) or {}).get("k") in ("int", "enum", "bool") for p_ in h_["params"]) and \
+                    (facts.tyi(h_, h_.get("ret")) or {}).get("k") == "bool" and depth < 8:
+                vals_ = [ieval.ev(f, a_, env) for a_ in n["c"][1:]]
+                return 1 if self.eval_member(h_, vals_, K, depth + 1) else 0
             # anything else the body reads from the OBJECT (a const accessor such as type(), a field): a state the caller
             # cannot exclude.  A(K) is the set of flags accepted in SOME state, so the term ranges over the constants the
             # body compares things with (and 0)
@@ -434,6 +449,50 @@ def run(db, rep, tier):
                         "find_pdu<T>(type) is called with its default argument T::pdu_flag"]
 
 
+def exit_implies_match(f, g, ret, x, tparam):
+    """is the return reached only by leaving a loop whose (false) condition says: x is null, or matches_flag(type) holds on x?"""
+    import itertools
+    from vlib import formula
+    loops = [l for l in facts.fn_nodes(f) if l["k"] == "WhileStmt"]
+    if len(loops) != 1:
+        return False
+    real = [c for c in loops[0]["c"] if c is not None]
+    c, body = real[0], real[-1]
+    if any(y is ret for y in facts.walk(body)):
+        return False
+    # the only other statements between the loop and the return: none that write x
+    for y in facts.fn_nodes(f):
+        if y["k"] == "BinaryOperator" and y.get("op") == "=" and facts.strip_all(y["c"][0]).get("var") == x["var"] and \
+                not any(z is y for z in facts.walk(body)):
+            return False
+    if any(y["k"] in ("ReturnStmt", "BreakStmt", "GotoStmt") for y in facts.walk(body)):
+        return False
+    atoms = []
+    formula.leaves(c, atoms)
+    atoms = sorted(set(atoms))
+    nm = x.get("name")
+    role = {}
+    for a in atoms:
+        if a.strip() == nm:
+            role[a] = "nonnull"
+        elif "matches_flag" in a and a.replace(" ", "").startswith(nm + "->matches_flag("):
+            role[a] = "match"
+    if sorted(role.values()) != ["match", "nonnull"] or len(atoms) != 2:
+        return False
+    for vals in itertools.product((False, True), repeat=2):
+        env = dict(zip(atoms, vals))
+        try:
+            cv = formula.ev(c, env)
+        except KeyError:
+            return False
+        e = dict((role[a], v) for a, v in env.items())
+        if not cv and e["nonnull"] and not e["match"]:
+            return False
+    # the flag handed to matches_flag is the function's own parameter
+    return any(y["k"] == "CXXMemberCallExpr" and y.get("cname") == "matches_flag" and len(y["c"]) == 2 and
+               facts.strip_all(y["c"][1]).get("var") in tparam for y in facts.walk(c))
+
+
 def search_member_ok(db, callee):
     """None when `callee` (a PDU member taking the flag) returns only null or the object variable on which
     matches_flag(<the flag parameter>) has just succeeded, and its cursor only moves to inner_pdu(); else the reason"""
@@ -563,6 +622,10 @@ def helpers(db, rep, F):
                                 obj = facts.strip_all(b0["c"][0]["c"][0]) if b0["c"][0].get("c") else None
                                 if obj is not None and obj.get("var") == x["var"]:
                                     okg = True
+                if not okg and is_find:
+                    # `while (p && !p->matches_flag(type)) p = p->inner_pdu(); return static_cast<T*>(p);` - the return is
+                    # reached through the loop's exit only, where the loop condition is false: p is null or it matched
+                    okg = exit_implies_match(f, g, r, x, tparam)
                 if not okg:
                     bad = "the cast of `%s` is not guarded by %s on that same object" % (
                         x.get("name"), "matches_flag(type)" if is_find else "T::pdu_flag == pdu_type()")
